@@ -1,6 +1,7 @@
 import HappyModel.Proto
 import HappyModel.C08.PolicySpec
 import HappyModel.C08.PipeDriver
+import HappyModel.C08.IndusDriver
 /-! Line-protocol driver for C08 (other side: `hv/props/c08.py`). -/
 namespace HappyModel.C08.Driver
 open HappyModel.Proto HappyModel.C08
@@ -26,6 +27,8 @@ def parseOp (ts : List String) : Option Op :=
     some (.push ⟨natD id, natD key, natD flow⟩ (natD now) (coin == "1") (rdrop == "1"))
   | ["pop", now, k] => some (.pop (natD now) (natD k))
   | ["peek", now] => some (.peek (natD now))
+  | ["purge", now] => some (.purge (natD now))
+  | ["query", now, f] => some (.query (natD now) (natD f))
   | _ => none
 
 def showItem : Option Item → String
@@ -36,6 +39,8 @@ def showOut : Out → String
   | .pushed ok => "push " ++ showBool ok
   | .popped r => "pop " ++ showItem r
   | .peeked r => "peek " ++ showItem r
+  | .purged n => "purge " ++ toString n
+  | .info xs => "query " ++ (if xs.isEmpty then "-" else ",".intercalate (xs.map toString))
 
 def statsOf (c : Cfg) (s : St) : List Nat :=
   let base :=
@@ -72,6 +77,8 @@ def parseObs (o : Op) (items : List Item) (ts : List String) : Option PObs :=
       | .push .. => .pushed (r == "1")
       | .pop .. => .popped item?
       | .peek .. => .peeked item?
+      | .purge .. => .purged (natD r)
+      | .query .. => .info (if r == "-" then [] else (r.splitOn ",").map natD)
     let stats := match rest with
       | [e, d, x] => some (natD e, natD d, natD x)
       | _ => none
@@ -107,6 +114,8 @@ def handle (hdr : List String) (body : List String) : List String :=
   | "judge-policy" :: rest => judgePolicy rest body
   | "pipe" :: rest => Pipe.runPipe rest body
   | "judge-pipe" :: rest => Pipe.judgePipe rest body
+  | "indus" :: rest => Indus.runIndus rest body
+  | "judge-indus" :: rest => Indus.judgeIndus rest body
   | _ => ["bad-mode"]
 
 end HappyModel.C08.Driver
